@@ -167,6 +167,7 @@ class StoreProbe(Q.QueueStorage):
         self.native_wait = native_wait
         self.synth_wait = synth_wait
         self.inprog = 0
+        self.loading = False
         self.ops = 0
         self.gate_p = gate_p
         self.ann = []
@@ -242,6 +243,7 @@ class StoreProbe(Q.QueueStorage):
     def load(self):
         self.ops += 1
         self.inprog += 1
+        self.loading = True
         n = 0
         try:
             for entry in self.inner.load():
@@ -261,6 +263,7 @@ class StoreProbe(Q.QueueStorage):
             raise
         finally:
             self.inprog -= 1
+            self.loading = False
         self.lab.log('store', 'load_done', n)
 
     def wait(self):
@@ -1039,7 +1042,10 @@ def _run(lab):
         acts = []
         if lab.parked:
             acts += ['release'] * 4
-        if clock.next_deadline() is not None:
+        # 'hold_clock_in_load': no virtual time passes while the start-up listing streams (a listing takes
+        # seconds, backoffs take minutes: by far the most common real schedule)
+        hold = cfg.get('hold_clock_in_load') and lab.store.loading
+        if clock.next_deadline() is not None and not hold:
             acts += ['advance'] * 2 + ['delta']
             if cfg.get('overshoot_p') and rnd.random() < cfg['overshoot_p']:
                 acts += ['overshoot'] * 2
@@ -1054,6 +1060,13 @@ def _run(lab):
                 and nmsg < total + cfg.get('prepop', 0):
             acts += ['extwrite']
         if not acts:
+            # nothing to decide yet (e.g. start() racing the first step with nothing enqueued): let the
+            # queue run until it is quiet, then look again; only a quiet queue with nothing to do ends the run
+            if not lab.settle():
+                lab.log('nosettle', step)
+                return
+            if lab.parked or clock.next_deadline() is not None:
+                continue
             break
         a = rnd.choice(acts)
         if a == 'release':
@@ -1092,7 +1105,7 @@ def _run(lab):
             id = rnd.choice(known)
             ts = _last_ts(lab, id)
             if ts is not None:
-                lab.log('announce', id, ts, 'dup')
+                lab.log('announce', id, ts, 'dup', lab.pools_free())
                 lab.store.announce([(ts, id)])
                 lab.decisions.append(('announce', id))
         elif a == 'extwrite':
@@ -1103,7 +1116,7 @@ def _run(lab):
             lab.msgs[m].update(id=id, enqueued=True, ext=True)
             lab.log('prepop', m, id, ts)
             if lab.store.synth_wait:
-                lab.log('announce', id, ts, 'ext')
+                lab.log('announce', id, ts, 'ext', lab.pools_free())
                 lab.store.announce([(ts, id)])
             lab.decisions.append(('extwrite', m))
         if not lab.settle():
